@@ -88,6 +88,57 @@ CHECKS = {
             'equal observations and encodings and leave a unchanged; then every accepted single operation of the alphabet on '
             'either side must leave the other untouched; same for elements copied by extend() (array, slice and list arguments).',
             'History length 2 over a full product; deeper aliasing that needs two mutations is not explored.', '4 C11'),
+    'C12': ('SSE+ME', 'model_checking',
+            'bounded exhaustive realisation of every accepted schema state by all back-ends, plus exhaustive enumeration of '
+            'one-edit rule breakers over the documented rule catalogue',
+            'Positive: every state of the schema universe goes through prophyc with all three back-ends; the generated module '
+            'must import and <schema>.ppf.cpp / <schema>.pp.cpp must pass g++ -fsyntax-only against the shipped headers. '
+            'Negative: every documented composability rule x element types (direct, nested, typedef, typedef of typedef) x '
+            'array forms x positions (236 schemas); prophyc must refuse each with a ProphycError diagnostic.',
+            'The rule catalogue is exactly the list in the property statement; g++ syntax check stands for compilation.',
+            '4 C12'),
+    'C13': ('ME', 'fault_enumeration',
+            'exhaustive single-edit (token / element / attribute / prefix) enumeration over base inputs, all short token '
+            'strings, all digraphs of type references, patch-rule and option products, each run under a deterministic work budget',
+            'Every single-token deletion, duplication, swap and replacement and every prefix of 8 base .prophy texts; all token '
+            'strings up to length 3 (4); isar XML with every element / attribute removed, emptied or garbled and truncated; all '
+            'digraphs of references between <= 3 typedef/struct/union definitions; every patch rule x arity x present/absent '
+            'node and member; include errors; option subsets of size <= 3. prophyc.main must return, raise ProphycError / a '
+            'designed plain Exception / SystemExit, within 5 x base + 100000 function starts and loop iterations '
+            '(sys.monitoring). Each chunk runs in its own process, so an interpreter crash is attributed to its input.',
+            'Only the exception classes the property lists (and subclasses) count as internal; other classes are tallied.',
+            '4 C13'),
+    'C14': ('EE', 'model_checking',
+            'exhaustive enumeration of expression trees up to 3 operators with an own integer evaluator; every site and back-end observed',
+            'All trees with <= 3 operators over decimal / octal / hex literals and names of earlier constants, enumerators and an '
+            'included constant, rendered with minimal and full parentheses; each is used as constant, enumerator, array size and '
+            'discriminator; model node values, generated Python values (type int) and encodings sizes, compiled C++ constants '
+            '(raw and full headers), prophyc.calc and the isar front-end must all give the value of integer arithmetic under '
+            'the grammar\'s precedence.',
+            'Domain restricted as the property states: division with non-negative operands and non-zero divisor; shift counts 0..3.',
+            '4 C14'),
+    'C15': ('PE', 'model_checking',
+            'exhaustive enumeration of definition sets (all kind assignments x all acyclic expressible dependency sets, <= 4 '
+            'nodes) x all input permutation classes through the real isar front-end',
+            'For every set: prophyc --isar on every permutation class of the XML elements; the output must be a permutation of '
+            'the definitions with every dependency (type reference, array-size constant, constant / enumerator in an expression, '
+            'discriminator) before its dependent; the generated module must import; layouts and constants must equal the '
+            'reference for every order.', 'sack input is not exercised (isar is the order-free front-end the property names first).',
+            '4 C15'),
+    'C16': ('PE', 'model_checking',
+            'exhaustive enumeration of dependency-respecting partitions of base schemas into <= 3 files x include lists x '
+            'directory / working-directory arrangements',
+            'Every partition is compiled in five arrangements (same dir, one / two -I dirs, other cwd with absolute paths, parent '
+            'cwd with relative paths); every generated module must import; constants, enumerators, layouts and encodings over '
+            'V(T) must equal the single-file build and the reference model; every input file is opened exactly once (audit '
+            'hook); a missing and a cyclic include variant of every partition must be refused with a diagnostic.',
+            '8 base schemas of 3-5 declarations.', '4 C16'),
+    'C17': ('SSE', 'model_checking',
+            'bounded exhaustive schema-state x value comparison of the prophy and isar (+patch) front-ends, and exhaustive patch-rule cases',
+            'Every state of the isar universe is rendered as prophy text and as isar XML (+ patch rules for greedy / bytes); '
+            'model layouts of every type and the bytes of both generated Python codecs for every value must agree. Patch: every '
+            'rule kind applied (result equals the prophy-language equivalent), aimed at an absent message (ignored, identical '
+            'output) and inapplicable (compilation fails).', 'sack front-end not compared.', '4 C17'),
     'C18': ('SSE+CPP', 'model_checking',
             'bounded exhaustive exploration of str() and compiled C++ print() against a reference renderer over every member order',
             'Every permutation of up to 3 (quick) / 4 (thorough) members drawn from bytes, integer, enum, nested struct, array, '
@@ -102,6 +153,13 @@ CHECKS = {
             'encode() (native) must equal encode<little>() on this host.',
             'Span map from the reference model; cases whose encoding disagrees with the oracle are judged by C01/C03 and '
             'only checked for equal length here.', '4 C19'),
+    'C20': ('PE', 'model_checking',
+            'exhaustive product of schema sets x hash seeds x working directories x command-line permutations x alone/together, '
+            'fresh process each, byte comparison of every output',
+            'Six schema sets (single file, diamond includes, independent files, isar, isar + patch, isar include), all four '
+            'generators; every output file must be byte-identical across PYTHONHASHSEED, cwd {input dir, parent, unrelated}, every '
+            'permutation of the inputs and each file compiled alone.',
+            'quick: seeds 0..3; thorough: 0..15.', '4 C20'),
 }
 
 NOT_APPLICABLE = []
@@ -143,6 +201,13 @@ def main():
             'add_only': True,
         },
         'engines': [
+            {'name': 'ME', 'path': 'vf/checks/C13.py', 'serves_properties': ['C12', 'C13'],
+             'kind_free_text': 'mutation enumerator: every single edit of base inputs at every site, run on the real prophyc.main '
+                               'under a deterministic work budget'},
+            {'name': 'EE', 'path': 'vf/exprs.py', 'serves_properties': ['C14'],
+             'kind_free_text': 'expression enumerator: all trees up to a number of operators, own evaluator and renderers'},
+            {'name': 'PE', 'path': 'vf/checks/C15.py', 'serves_properties': ['C15', 'C16', 'C20'],
+             'kind_free_text': 'permutation / partition / configuration enumerator: full products of small finite sets'},
             {'name': 'FE', 'path': 'vf/faults.py', 'serves_properties': ['C06', 'C07'],
              'kind_free_text': 'fault enumerator: complete single/double deviation menu from valid encodings (prefixes, '
                                'extensions, control-word and byte substitutions) plus exhaustive short strings'},
